@@ -579,7 +579,7 @@ func (p *lowMemoryEventPool) wakeupWaiters() {
 		verifPoolAtom()
 		eventsAvailable := p.eventsAvailable()
 		verifPoolAtomTrace(vpLmTickA, p, verifBool(eventsAvailable), 0, 0)
-		if waiters > 0 && !eventsAvailable {
+		if waiters > 0 && eventsAvailable {
 			// There are events in the pool, wake up waiting goroutines.
 			verifPoolAtom()
 			p.getCond.Broadcast()
